@@ -23,12 +23,13 @@ func crashSpec(id string, extra string, probes []string) *PropSpec {
 }
 
 func init() {
-	propSpecs["C01"] = crashSpec("C01", "", []string{"recoveries"})
-	propSpecs["C02"] = crashSpec("C02", " C02 emphasis: 90% power losses, 8-byte granules, large segments so that repeated crash/recover/append cycles hit the same tail file and stale frames of earlier torn batches lie behind the new tail (probe stale_bytes_behind).", []string{"recoveries"})
+	bigBatch := " One run in 16 is a big-batch run: segments of 1-8 MiB, batches of 2-5 entries of 70 KiB-2.2 MiB (0.2-5 MiB per batch), each hit by a power loss (or process crash) before / after / in the middle of its write or fsync, sector-sized granules."
+	propSpecs["C01"] = crashSpec("C01", bigBatch, []string{"recoveries"})
+	propSpecs["C02"] = crashSpec("C02", " C02 emphasis: 90% power losses, 8-byte granules, large segments so that repeated crash/recover/append cycles hit the same tail file and stale frames of earlier torn batches lie behind the new tail (probe stale_bytes_behind)."+bigBatch, []string{"recoveries"})
 	propSpecs["C02"].RequiredFired = append(propSpecs["C02"].RequiredFired, "stale_bytes_behind", "files_torn")
 	propSpecs["C03"] = crashSpec("C03", " C03 adds after every recovery a usability script (append at Last+1, a second append, stable set, head and tail DeleteRange, clean Close/Open, all compared with the model); refusal of a legal call, a deadlock or a step-budget overrun is a violation.", []string{"recoveries", "usability_scripts"})
-	propSpecs["C04"] = crashSpec("C04", " C04 emphasis: crashes targeted at the seam calls inside DeleteRange (ForceSeal write/sync, CommitState, Create, finalizer Delete) and in the appends that re-use truncated indexes.", []string{"recoveries", "truncations"})
-	propSpecs["C13"] = crashSpec("C13", " C13 oracles: after every returned DeleteRange, every Open and at quiescent points the sorted directory listing equals the file names of the segments in committed metadata; every Create succeeds without colliding; a segment ID is bound to one BaseIndex for the lifetime of the directory; committed NextSegmentID never decreases and exceeds every ID ever created.", []string{"recoveries", "truncations"})
+	propSpecs["C04"] = crashSpec("C04", " C04 emphasis: crashes targeted at the seam calls inside DeleteRange (ForceSeal write/sync, CommitState, Create, finalizer Delete) and in the appends that re-use truncated indexes."+bigBatch, []string{"recoveries", "truncations"})
+	propSpecs["C13"] = crashSpec("C13", " C13 oracles: after every returned DeleteRange, every Open and at quiescent points the sorted directory listing equals the file names of the segments in committed metadata; every Create succeeds without colliding; a segment ID is bound to one BaseIndex for the lifetime of the directory; committed NextSegmentID never decreases and exceeds every ID ever created; a Create that collides with an existing file is itself a violation. A quarter of the runs have concurrent readers pinning old states instead of crashes, a quarter have injected I/O errors instead of crashes (the C10 generator: a failed creation / deletion / metadata commit, also one whose effect landed, must not lead to an ID or name being handed out twice; the directory listing is judged again after the next Open).", []string{"recoveries", "truncations"})
 	propSpecs["C10"] = &PropSpec{
 		ID: "C10",
 		Rule: "each run = a seeded workload (8-40 API calls) with 1-3 injected I/O errors, each at the k-th seam call (optionally of a given kind: WriteAt, Sync, CommitState, Create, Delete, ListDir, OpenReader, OpenWriter, ReadAt, Load, SetStable, GetStable) inside one operation's window incl. the background rotation and Open; " +
@@ -66,7 +67,7 @@ func init() {
 	}
 	propSpecs["C12"] = &PropSpec{
 		ID: "C12",
-		Rule: "two kinds of runs. (a) aliasing: one writer and 1-4 reader tasks as in C06, entries on both sides of the 64 KiB pooled read buffer; every log returned by GetLog is checksummed at return and re-checksummed at the end of the run, after later reads (of this and other tasks, interleaved by the scheduler) recycled the pooled buffers. (b) codec identity: sequential programs on a directory created with the default or a custom codec ID (2^16, 2^16+1, 2^40, MaxUint64), with codec probes between operations and after a crash: Open with a different custom ID and with the default codec must be refused and leave nothing open or locked (real bolt flock probed with a timeout in a third of the runs), a reserved ID (1..65535) must be rejected before any storage call, the same codec must reopen and read back the model's entries. " +
+		Rule: "two kinds of runs. (a) aliasing: one writer and 1-4 reader tasks as in C06, entries on both sides of the 64 KiB pooled read buffer; every log returned by GetLog is checksummed at return and re-checksummed at the end of the run, after later reads (of this and other tasks, interleaved by the scheduler) recycled the pooled buffers; a concurrent GetLog that returns a log which was never stored at that index in ANY state of the history (assembled from a recycled buffer) is a violation of its own (whether a correct entry was returned at the right time is C06's question and not judged here). In half of all runs each ReadAt is followed by a second yield point (the bytes are in the caller's buffer, the caller has not looked at them yet). (b) codec identity: sequential programs on a directory created with the default or a custom codec ID (2^16, 2^16+1, 2^40, MaxUint64), with codec probes between operations and after a crash: Open with a different custom ID and with the default codec must be refused and leave nothing open or locked (real bolt flock probed with a timeout in a third of the runs), a reserved ID (1..65535) must be rejected before any storage call, the same codec must reopen and read back the model's entries. " +
 			"By-product: every entry flowing through any run is compared field by field (generator biased to varint boundaries, all LogTypes incl. 255, nil vs empty slices, 64 KiB neighbourhood, zero time / zone offsets). The isolated Encode/Decode equality is a pure function and is not decided by simulation. " +
 			"Non-trivial = a read overlapped a write (a) or a codec probe ran (b); distinct = interleaving hashes / op-sequence signatures.",
 		Components:     compA + "; a third of the codec-identity runs use the real metadb.BoltMetaDB + bbolt on tmpfs",
@@ -74,7 +75,7 @@ func init() {
 		RequiredProbes: []string{"wrong_codec_refused", "reserved_codec_rejected", "same_codec_reopened", "reads_overlapping_a_write", "append_ge_64KiB_acked"},
 		QuickS:         45, ThoroughS: 600,
 	}
-	clusterRule := "each run = a simulated cluster of 2-4 nodes, each a verifier.NewLogStore over an in-memory reference store behind a seam wrapper (every inner call a yield point; GetLog can return an altered copy), driven by a small model of raft log replication that only generates histories raft could produce: leader appends (checkpoints at tape-chosen places, bootstrap configuration entry at index 1), replication of the leader's stored entries to a follower in batch splits of 1-5, follower lag, leadership change to any node whose log is at least as up to date as a majority's (new leader appends a no-op; followers truncate their conflicting suffix before appending), snapshot install on followers behind the leader's first index, middleware restart (new LogStore over the same inner store), head truncation; truncations wait until no verification of the node is pending (the quantifier's side condition). The verifier goroutines are scheduled by the simulator. Ground truth (what each leader checksummed per checkpoint, what each node stores) is kept by the driver and every delivered VerificationReport is judged against it. "
+	clusterRule := "each run = a simulated cluster of 2-4 nodes, each a verifier.NewLogStore over an in-memory reference store behind a seam wrapper (every inner call a yield point; GetLog can return an altered copy), driven by a small model of raft log replication that only generates histories raft could produce: leader appends (checkpoints at tape-chosen places, bootstrap configuration entry at index 1), replication of the leader's stored entries to a follower in batch splits of 1-5, follower lag, leadership change to any node whose log is at least as up to date as a majority's (new leader appends a no-op; followers truncate their conflicting suffix before appending), snapshot install on followers behind the leader's first index, middleware restart (new LogStore over the same inner store), head truncation; truncations wait until no verification of the node is pending (the quantifier's side condition). The verifier goroutines are scheduled by the simulator. Only committed entries (held by a majority) are compacted away and a node with an empty log resumes after its snapshot. Ground truth (what each leader checksummed per checkpoint, what each node stores) is kept by the driver and every delivered VerificationReport is judged against it. A third of the runs inject errors: the k-th inner StoreLogs / DeleteRange / IsCheckpointFn call, or the k-th GetLog / FirstIndex the verifier goroutine or the driver issues, fails before reaching the store; a failed leader append is retried with the same log values (checkpoint metadata already written into them), with fresh copies, or abandoned; a failed call must return the injected error, change nothing and account nothing, a verification whose read failed must report that error and never a checksum mismatch, and later reports are judged as before. An oracle is only reported by the property that owns it (C16 no-false-alarm; C17 detects-divergence, blame-correct; C18 everything else); a foreign oracle that fails ends the run without a verdict. "
 	propSpecs["C16"] = &PropSpec{
 		ID:             "C16",
 		Rule:           clusterRule + "C16: no corruption is injected; a node that stores the whole range exactly as checksummed must get a report without error; a node lacking part of the range must get ErrRangeMismatch. Non-trivial = at least one checkpoint; distinct = interleaving hash + (nodes, leader changes).",
@@ -94,7 +95,7 @@ func init() {
 	}
 	propSpecs["C18"] = &PropSpec{
 		ID:             "C18",
-		Rule:           clusterRule + "C18: ReportFn is a harness gate kept blocked for tape-chosen spans (across 0..n further checkpoints), the verifier is parked inside its reads of the inner store; transparency probes compare FirstIndex / LastIndex / GetLog / stored entries through the middleware with the inner store and submit a checkpoint with foreign Extensions (must be refused, nothing stored). Oracles: no task may block forever / exceed the step budget while a gate is closed (StoreLogs completes); after the gates open and the system is quiescent #checkpoints == #reports + dropped_reports, checkpoints_written and ranges_verified agree; every dropped checkpoint's range is covered by the SkippedRange of the next delivered report (exactly, when ranges are contiguous).",
+		Rule:           clusterRule + "C18: ReportFn is a harness gate kept blocked for tape-chosen spans (across 0..n further checkpoints), the verifier is parked inside its reads of the inner store; transparency probes compare FirstIndex / LastIndex / GetLog / stored entries through the middleware with the inner store and submit a checkpoint with foreign Extensions (must be refused, nothing stored). Oracles: no task may block forever / exceed the step budget while a gate is closed (StoreLogs completes); after the gates open and the system is quiescent #checkpoints == #reports + dropped_reports, checkpoints_written and ranges_verified agree; every dropped checkpoint's range is covered by the SkippedRange (or lies inside the range) of the first report triggered after the drop - which checkpoints were queued and which dropped is read off the verifier's own sent / dropped notifications in order. In half of the runs (noQuiet) truncations - conflicting suffix, snapshot install, compaction - do NOT wait for the node's verifier to be idle, so a DeleteRange meets reports that are queued or held by the blocked ReportFn; there reports are not judged against ground truth (C16's side condition), only the accounting, SkippedRange, transparency and no-blocking oracles apply.",
 		Components:     "real: verifier; harness: replication driver, gates",
 		Assumptions:    []string{"bounded liveness is measured in scheduler steps, not wall time"},
 		RequiredProbes: []string{"checkpoints", "reportfn_blocked", "reports_dropped", "skipped_range_named", "transparency_probes", "foreign_extensions_refused"},
@@ -102,7 +103,7 @@ func init() {
 	}
 	propSpecs["C07"] = &PropSpec{
 		ID: "C07",
-		Rule: "configuration B - nothing stubbed: fs/, metadb/, bbolt and the kernel are real (tmpfs directory). Three kinds of seeded runs: (trace, 50%) a plan of 4-17 operations (appends with rotation, head/tail/full truncations, stable sets, reopens) executed by a child process through wal.Open(dir) with production defaults under `strace -f -y`; every API call is bracketed by marker syscalls and the trace is judged by per-file ordering rules relative to the acknowledgement markers: R1 no pwrite64 to a segment file after its last fsync at a StoreLogs ack; R2 a segment file created (or, since fix 63643b0, opened read-write) in this process and written by an acknowledged append has an fsync of the directory in between; R3 every unlink of a segment file is followed by a directory fsync before the enclosing call's ack; R4 segment files are created with O_EXCL and preallocated before the first write (plus a VFS-level probe: Create yields `size` zero bytes and a second Create fails); R5 wal-meta.db appears only by rename from the temporary name after its writes were fsynced, followed by a directory fsync before Open's ack. (diff, 33%) one random sequence of 10-40 VFS calls (create / open / write / read at and beyond EOF / sync / delete with open handles / list + sizes) applied to fs.FS and to the simulated disk: results, error classes, sizes and bytes must agree - the stub-fidelity proof for configuration A. (kill, 17%) the child runs the plan over pass-through wrappers and SIGKILLs itself before the k-th fs/metadb call (incl. during the very first Open while wal-meta.db is created); a second process must open the directory, find every acknowledged entry and stable key, and accept an append. " +
+		Rule: "configuration B - nothing stubbed: fs/, metadb/, bbolt and the kernel are real (tmpfs directory). Three kinds of seeded runs: (trace, 50%) a plan of 4-17 operations (appends with rotation, head/tail/full truncations, stable sets, reopens; segment sizes 512 B-64 KiB, and in 1 of 12 trace runs production-like geometry: a 12 MiB segment first filled by ~45 batches of 6000-9000 tiny entries, so that the sealing batch carries an index frame of more than 1 MiB) executed by a child process through wal.Open(dir) with production defaults under `strace -f -y`; every API call is bracketed by marker syscalls and the trace is judged by per-file ordering rules relative to the acknowledgement markers: R1 no pwrite64 to a segment file after its last fsync at a StoreLogs ack; R2 a segment file created (or, since fix 63643b0, opened read-write) in this process and written by an acknowledged append has an fsync of the directory in between; R3 every unlink of a segment file is followed by a directory fsync before the enclosing call's ack; R4 segment files are created with O_EXCL and preallocated before the first write (plus a VFS-level probe: Create yields `size` zero bytes and a second Create fails); R5 wal-meta.db appears only by rename from the temporary name after its writes were fsynced, followed by a directory fsync before Open's ack. (diff, 33%) one random sequence of 10-40 VFS calls (create / open / write / read at and beyond EOF / sync / delete with open handles / list + sizes) applied to fs.FS and to the simulated disk: results, error classes, sizes and bytes must agree - the stub-fidelity proof for configuration A. (kill, 17%) the child runs the plan over pass-through wrappers and SIGKILLs itself before the k-th fs/metadb call (incl. during the very first Open while wal-meta.db is created); a second process must open the directory, find every acknowledged entry and stable key, and accept an append. " +
 			"Non-trivial = every run; distinct = (mode, files created, files unlinked, opens) / kill point bucket.",
 		Components:     "everything real (wal, segment, fs, metadb, bbolt, kernel on tmpfs); recording seam = syscall boundary (strace 'trace' runs), process boundary (kill runs)",
 		Assumptions:    []string{"tmpfs executes fsync as a no-op but the syscalls are issued and traced identically", "the relative order of syscalls of the rotation thread and the caller varies between executions; R1-R5 are per-file rules relative to markers issued by the acknowledged goroutine, which do not depend on it", "power loss is not exercised here (that is what configuration A's simulated disk is for); kill runs cover process crashes only"},
@@ -113,7 +114,7 @@ func init() {
 	propSpecs["C19"] = &PropSpec{
 		ID: "C19",
 		Rule: "each run = one CopyLogs (80%) or CopyStable (20%) call. CopyLogs: source of 0,1,2,3,5,8,13,40 or 120 entries (payload 0-5000 bytes, extensions) starting at 1, 2, 1000, 2^32-2 or 2^40; batchBytes 0, 1, around one entry, 200, 5000, 2^30; source and destination each one of {real WAL over the simulated disk, real raft-boltdb store on tmpfs, in-memory reference store}; progress channel nil / buffered / unbuffered and never drained; every store call is a seam: in a quarter of the runs the context is cancelled before store call k, in a quarter store call k returns an I/O error. " +
-			"Oracles: without cancellation/fault the destination equals the source (First, Last, every field) and an empty source yields nil + empty destination; with cancellation the error is the context's and the destination holds a prefix of the source; an injected error is returned (never swallowed) and leaves a prefix; the progress channel is closed on every return path. CopyStable: the three raft keys and extra keys arrive; pre-cancelled context returns its error. " +
+			"Oracles: without cancellation/fault the destination equals the source (First, Last, every field) and an empty source yields nil + empty destination; with cancellation the error is the context's and the destination holds a prefix of the source; an injected error is returned (never swallowed) and leaves a prefix; the progress channel is closed on every return path. CopyStable: the three raft keys and extra keys arrive (a third of the runs use stores with separate key spaces for byte and uint64 values and key names that occur in both lists; both values must arrive); pre-cancelled context returns its error. " +
 			"Non-trivial = every run; distinct = (store pairing, size bucket, batchBytes, channel kind, mode).",
 		Components:     "real: migrate, wal+segment (WAL stores over the simulated disk), raft-boltdb v2 (tmpfs); harness: in-memory reference store, seam wrapper around both stores",
 		Assumptions:    []string{"migrate's 1 ms best-effort time.After on a blocked progress channel is left real (no property depends on its outcome)"},
@@ -133,7 +134,7 @@ func init() {
 	}
 	propSpecs["C09"] = &PropSpec{
 		ID: "C09",
-		Rule: "runs = 60% fault-free programs (appends with every padding residue and batch shape, rotation at segment sizes 64B-64KiB, head/tail/full truncations, reopens, quiesce points) and 40% crash/re-append histories of the C01 generator; at every quiescent point and after every Open each segment file named by committed metadata is decoded by the README-only decoder (CRC verified per batch), re-encoded by the README-only encoder and compared byte-for-byte up to its last commit; header vs file name vs metadata; 8-byte alignment; live entry payloads vs the model's encodings; sealed: index frame offsets == entry frame offsets and IndexStart == index payload offset; crash-free histories: commit frames exactly at acknowledged batch boundaries. " +
+		Rule: "runs = a sixth injected-I/O-error histories of the C10 generator with extra reopens (what a failed, rolled-back append / seal / truncation leaves in the file must never end up inside the committed part; rule: nothing is committed behind an index frame), the rest 60% fault-free programs (appends with every padding residue and batch shape, rotation at segment sizes 64B-64KiB, head/tail/full truncations, reopens, quiesce points) and 40% crash/re-append histories of the C01 generator; at every quiescent point and after every Open each segment file named by committed metadata is decoded by the README-only decoder (CRC verified per batch), re-encoded by the README-only encoder and compared byte-for-byte up to its last commit; header vs file name vs metadata; 8-byte alignment; live entry payloads vs the model's encodings; sealed: index frame offsets == entry frame offsets and IndexStart == index payload offset; crash-free histories: commit frames exactly at acknowledged batch boundaries. " +
 			"Non-trivial = at least one sealed segment checked or a crash fired; distinct = distinct op-sequence/state-class signatures (fault-free) or crash signatures.",
 		Components:     compA + "; refformat: independent encoder/decoder written from README.md only (shares no code with package segment)",
 		Assumptions:    []string{"README ambiguity: the first batch's CRC includes the 32-byte file header (written in the same first write); golden directories pin the pinned tree's behaviour", "entry payload bytes are produced by the codec (C12's business) and treated as opaque"},
@@ -142,7 +143,7 @@ func init() {
 	}
 	propSpecs["C20"] = &PropSpec{
 		ID: "C20",
-		Rule: "each run = a fault-free program (appends incl. refused batches, head/tail/full/middle/no-op truncations weighted to ones that empty the log, hit an empty tail or repeat, GetLog, stable ops, reopens) executed with metrics.NewAtomicCollector(wal.MetricDefinitions) (panics on an undeclared name); at every quiescent point the counters must equal the model's totals: log_appends, log_entries_written, log_entry_bytes_written (encoded through the codec), log_entries_read (GetLog calls), stable_gets/sets, head/tail_truncations (entries the model removed), segment_rotations (metadata commits that seal the tail outside a caller's DeleteRange/StoreLogs). " +
+		Rule: "each run = a fault-free program (appends incl. refused batches, head/tail/full/middle/no-op truncations weighted to ones that empty the log, hit an empty tail or repeat, GetLog, stable ops, reopens) (a quarter of the runs: the C10 error-fault generator instead - there, and for the rest of such a run, only log_appends / log_entries_written / log_entry_bytes_written are judged, at every quiescent point: a StoreLogs that failed appended nothing, the other totals are ambiguous for a failed call) executed with metrics.NewAtomicCollector(wal.MetricDefinitions) (panics on an undeclared name); at every quiescent point the counters must equal the model's totals: log_appends, log_entries_written, log_entry_bytes_written (encoded through the codec), log_entries_read (GetLog calls), stable_gets/sets, head/tail_truncations (entries the model removed), segment_rotations (metadata commits that seal the tail outside a caller's DeleteRange/StoreLogs). " +
 			"Non-trivial = an acknowledged append and a truncation or reopen; distinct = distinct op-sequence/state-class signatures.",
 		Components:     compA,
 		Assumptions:    []string{"the static 'every emitting call site' half is measured as reach (hook_points_passed / probes), not decided", "verifier metrics are covered by the C16-C18 checks"},
@@ -151,7 +152,7 @@ func init() {
 	}
 	propSpecs["C15"] = &PropSpec{
 		ID: "C15",
-		Rule: "each run = 2-7 batches of 1-3 entries where one entry per batch has a boundary size (0-24, 64KiB-40..64KiB+16, segment size +/- frame overhead, 100000, 1MiB, and - rarely, more often in the thorough tier - 64MiB-64..64MiB+32 payload bytes) at a random batch position, crossed with segment sizes 64B..4MiB and preallocation on/off; interleaved with clean reopens and power losses right after the acknowledgement. Oracle: an acknowledged entry reads back identical immediately, after reopen and after power loss; refusal is allowed, acknowledge-then-unreadable is not. " +
+		Rule: "each run = 2-7 batches of 1-3 entries where one entry per batch has a boundary size (0-24, 64KiB-40..64KiB+16, segment size +/- frame overhead, 100000, 1MiB, and - rarely, more often in the thorough tier - 64MiB-64..64MiB+32 payload bytes) at a random batch position, crossed with segment sizes 64B..4MiB and preallocation on/off; interleaved with clean reopens and power losses right after the acknowledgement; 1 run in 60: one batch of 2-3 entries of ~33 MiB each (every entry legal, the batch larger than a segment plus one maximum-size entry) followed by Close / process crash / power loss before or while the rotation commits, then reopen. Oracle: an acknowledged entry reads back identical immediately, after reopen and after power loss; refusal is allowed, acknowledge-then-unreadable is not. " +
 			"Non-trivial = an entry >= 64KiB-40 or >= the segment size was acknowledged; distinct = distinct op-sequence/state-class signatures.",
 		Components:     compA,
 		Assumptions:    []string{"64 MiB cases are sampled rarely (memory/time); the quick tier may contain none - the probes say how many ran"},
@@ -160,7 +161,7 @@ func init() {
 	}
 	propSpecs["C08"] = &PropSpec{
 		ID: "C08",
-		Rule: "each run = 6-36 operations mixing Set/SetUint64/Get (raft keys, binary keys, empty / nil / 1B-60KiB values, 1B-32KiB keys) with appends, truncations and clean reopens, plus 0-3 process crashes at seam calls inside Sets, appends, truncations and the background rotation, and 0-2 injected meta-store errors on SetStable (fail-before / fail-after) and GetStable; a third of the non-empty values recur (same bytes for the same key and size); a quarter of the runs are the concurrent half: the C06 workload (writer with rotations and truncations, 1-4 readers) with a stable-store client task beside it whose Gets must return its own latest acknowledged Set; backend = the real metadb.BoltMetaDB (two buckets, one write txn per Set/CommitState) on a tmpfs directory behind the seam wrapper. Oracle: stable model after every Get and after every reopen/recovery (in-flight Set applied or not), log model untouched by stable ops and vice versa. " +
+		Rule: "each run = 6-36 operations mixing Set/SetUint64/Get (raft keys, binary keys, empty / nil / 1B-60KiB values, 1B-32KiB keys) with appends, truncations and clean reopens, plus 0-3 process crashes at seam calls inside Sets, appends, truncations and the background rotation, and 0-2 injected meta-store errors on SetStable (fail-before / fail-after) and GetStable; a third of the non-empty values recur (same bytes for the same key and size); a quarter of the runs are the concurrent half: the C06 workload (writer with rotations and truncations, 1-4 readers) with one or two stable-store client tasks beside it (Set and SetUint64 on keys of their own, so two Sets may be in flight at once) whose Gets must return their own latest acknowledged Set; backend = the real metadb.BoltMetaDB (two buckets, one write txn per Set/CommitState) on a tmpfs directory behind the seam wrapper. Oracle: stable model after every Get and after every reopen/recovery (in-flight Set applied or not), log model untouched by stable ops and vice versa. " +
 			"Non-trivial = a crash fired or (acknowledged append and reopen); distinct = crash signatures / op-sequence signatures.",
 		Components:     "real: wal, segment, metadb.BoltMetaDB + bbolt (on tmpfs); stub: fs.FS -> simulated disk; power loss of bbolt's own file is not simulated (bbolt trusted)",
 		Assumptions:    []string{"bbolt's crash safety is trusted; only process crashes (between MetaStore calls) are injected for the metadata file"},
